@@ -13,10 +13,11 @@ for py in sorted(glob.glob("/root/.pyenv/versions/*/bin/python")):
     out = subprocess.check_output([py, "-c", "import sys\ntry:\n import importlib.util as u; m=u.MAGIC_NUMBER\nexcept Exception:\n import imp; m=imp.get_magic()\nimport struct; print('%d.%d.%d %d' % (sys.version_info[:3] + (struct.unpack('<H', m[:2])[0],)))"]).decode().split()
     writes[out[0]] = int(out[1])
 # release -> magic for final releases, from the registry: the last row of each major.minor is what x.y final writes
-# (3.5.0-3.5.2 wrote 3350, 3.5.3+ wrote 3351: both rows are "3.5" rows; recorded explicitly)
+# (3.5.0/3.5.1 wrote 3350; the registry's own row says 3.5.2 bumped to 3351: recorded explicitly)
 final = {}
 for r in rows:
     final["%d.%d" % (r["major"], r["minor"])] = r["magic"]
 json.dump({"source": "CPython 3.13.0 Lib/importlib/_bootstrap_external.py comment table; MAGIC_NUMBER of installed interpreters",
            "rows": rows, "last_row_per_minor": final, "interpreter_writes": writes,
-           "release_exceptions": {"3.5.0": 3350, "3.5.1": 3350, "3.5.2": 3350, "3.5.3": 3351}}, sys.stdout, indent=1, sort_keys=True)
+           "release_exceptions": {"3.5.0": 3350, "3.5.1": 3350},
+           "minor_alternatives": {"3.5": [3350, 3351]}}, sys.stdout, indent=1, sort_keys=True)
